@@ -1,9 +1,22 @@
-//! Controlled scheduler (deviation-bounded exploration of thread interleavings).
+//! SCHED — controlled scheduler over real threads.
+//!
+//! Exactly one registered thread runs at a time ("holds the token"). A thread gives
+//! the token up at every hook (`point`, `wait_until`, `yield_now`, thread start/end);
+//! the thread giving it up computes the enabled set and picks the next thread from
+//! the schedule prefix or, past the prefix, the canonical default. Deviation-bounded
+//! depth-first exploration is driven from outside (`explore`).
 
+use crate::session::SchedHooks;
+use feoxdb::verif::Tick;
+use parking_lot::{Condvar, Mutex};
 use std::cell::Cell;
+use std::sync::atomic::{AtomicBool, AtomicU64, Ordering};
+use std::sync::Arc;
+use std::time::{Duration, Instant};
 
 thread_local! {
     static LAST_TS: Cell<u64> = const { Cell::new(0) };
+    static MY_TID: Cell<Option<usize>> = const { Cell::new(None) };
 }
 
 pub fn note_thread_timestamp(ts: u64) {
@@ -13,4 +26,495 @@ pub fn note_thread_timestamp(ts: u64) {
 /// Timestamp most recently resolved by a store call on this thread (0 = none since reset).
 pub fn take_thread_timestamp() -> u64 {
     LAST_TS.with(|c| c.replace(0))
+}
+
+#[derive(Clone, Copy, Debug, PartialEq, Eq)]
+pub enum Status {
+    /// Holds the token (or is a background thread in free mode).
+    Running,
+    /// Parked at a scheduling point; runnable.
+    AtPoint,
+    /// Parked after a voluntary yield; runnable, but the default prefers others.
+    Yielded,
+    /// Parked in a visible wait; runnable iff its predicate holds.
+    Waiting,
+    Finished,
+}
+
+struct Pred(*const (dyn Fn() -> bool + 'static));
+unsafe impl Send for Pred {}
+
+pub struct ThreadInfo {
+    pub role: &'static str,
+    pub app: bool,
+    pub status: Status,
+    pub last_point: &'static str,
+    pub last_args: (u64, u64),
+    pred: Option<Pred>,
+    last_scheduled: u64,
+}
+
+#[derive(Clone, Debug)]
+pub struct Decision {
+    pub enabled: Vec<usize>,
+    pub chosen: usize,
+    pub default: usize,
+    /// cost of picking anything but the default here (0 when the previous thread is blocked or finished)
+    pub alt_cost: u32,
+    /// (tid, point) of every enabled thread, for replay comparison
+    pub at: Vec<(usize, &'static str)>,
+}
+
+#[derive(Clone, Debug, PartialEq, Eq)]
+pub enum Outcome {
+    Completed,
+    Deadlock(String),
+    Horizon(String),
+    Diverged(String),
+    Stuck(String),
+}
+
+pub struct State {
+    pub threads: Vec<ThreadInfo>,
+    controlled: bool,
+    token: Option<usize>,
+    prev: Option<usize>,
+    prefix: Vec<usize>,
+    pub trace: Vec<Decision>,
+    step: u64,
+    horizon: usize,
+    pub outcome: Option<Outcome>,
+    pub pins: Vec<(usize, u64, u64)>,
+    pub monitor: Vec<String>,
+    last_progress: Instant,
+    /// called at every decision while every thread is parked
+    on_decision: Option<Box<dyn Fn() -> Option<String> + Send>>,
+}
+
+pub struct Sched {
+    pub m: Mutex<State>,
+    cv: Condvar,
+    stop_polling: AtomicBool,
+    pub decisions_total: AtomicU64,
+    tick_granted: std::sync::atomic::AtomicU32,
+}
+
+impl Sched {
+    pub fn new(prefix: Vec<usize>, horizon: usize) -> Arc<Sched> {
+        Arc::new(Sched {
+            m: Mutex::new(State {
+                threads: Vec::new(),
+                controlled: false,
+                token: None,
+                prev: None,
+                prefix,
+                trace: Vec::new(),
+                step: 0,
+                horizon,
+                outcome: None,
+                    pins: Vec::new(),
+                monitor: Vec::new(),
+                last_progress: Instant::now(),
+                on_decision: None,
+            }),
+            cv: Condvar::new(),
+            stop_polling: AtomicBool::new(false),
+            decisions_total: AtomicU64::new(0),
+            tick_granted: std::sync::atomic::AtomicU32::new(0),
+        })
+    }
+
+    pub fn set_on_decision(&self, f: Box<dyn Fn() -> Option<String> + Send>) {
+        self.m.lock().on_decision = Some(f);
+    }
+
+    fn my_tid() -> Option<usize> {
+        MY_TID.with(|c| c.get())
+    }
+
+    /// Register the calling thread. Application threads are registered by the harness
+    /// in a fixed order before the controlled phase starts.
+    pub fn register(&self, role: &'static str, app: bool) -> usize {
+        let mut st = self.m.lock();
+        let tid = st.threads.len();
+        st.threads.push(ThreadInfo {
+            role,
+            app,
+            status: Status::Running,
+            last_point: "start",
+            last_args: (0, 0),
+            pred: None,
+            last_scheduled: 0,
+        });
+        MY_TID.with(|c| c.set(Some(tid)));
+        self.cv.notify_all();
+        tid
+    }
+
+    pub fn unregister_current() {
+        MY_TID.with(|c| c.set(None));
+    }
+
+    pub fn grant_tick(&self) {
+        self.tick_granted.fetch_add(1, Ordering::SeqCst);
+    }
+
+    /// Application threads wait here (in any mode) until the controlled phase hands
+    /// them the token for the first time.
+    pub fn start_gate(&self, tid: usize) {
+        let mut st = self.m.lock();
+        st.threads[tid].status = Status::AtPoint;
+        st.threads[tid].last_point = "start";
+        self.cv.notify_all();
+        while st.outcome.is_none() && !(st.controlled && st.token == Some(tid)) {
+            self.cv.wait(&mut st);
+        }
+        st.threads[tid].status = Status::Running;
+    }
+
+    fn enabled(st: &State) -> Vec<usize> {
+        let mut v = Vec::new();
+        for (i, t) in st.threads.iter().enumerate() {
+            match t.status {
+                Status::AtPoint | Status::Yielded => v.push(i),
+                Status::Waiting => {
+                    if let Some(p) = &t.pred {
+                        // SAFETY: the owner is parked inside `wait_until` for as long as
+                        // the pointer is stored; it removes it before returning.
+                        if unsafe { (*p.0)() } {
+                            v.push(i);
+                        }
+                    }
+                }
+                _ => {}
+            }
+        }
+        v
+    }
+
+    /// Pick the next thread and hand it the token. Called with the state locked by the
+    /// thread that just parked / finished (it no longer holds the token).
+    fn schedule_next(&self, st: &mut State) {
+        if !st.controlled || st.outcome.is_some() {
+            return;
+        }
+        st.token = None;
+        st.last_progress = Instant::now();
+        // Settle: effects of real threads (exit, channel hand-off) may lag by microseconds.
+        let mut enabled = Self::enabled(st);
+        let all_app_done = st.threads.iter().filter(|t| t.app).all(|t| t.status == Status::Finished);
+        if all_app_done {
+            st.outcome = Some(Outcome::Completed);
+            self.release_all(st);
+            return;
+        }
+        if enabled.is_empty() {
+            let deadline = Instant::now() + Duration::from_millis(200);
+            while enabled.is_empty() && Instant::now() < deadline {
+                std::thread::sleep(Duration::from_micros(50));
+                enabled = Self::enabled(st);
+            }
+        }
+        if enabled.is_empty() {
+            let who: Vec<String> = st
+                .threads
+                .iter()
+                .enumerate()
+                .filter(|(_, t)| t.status != Status::Finished)
+                .map(|(i, t)| format!("T{i}({}) blocked at {}{:?}", t.role, t.last_point, t.last_args))
+                .collect();
+            st.outcome = Some(Outcome::Deadlock(who.join("; ")));
+            self.release_all(st);
+            return;
+        }
+        if st.trace.len() >= st.horizon {
+            let who: Vec<String> = st.threads.iter().enumerate().map(|(i, t)| format!("T{i}({}) at {}", t.role, t.last_point)).collect();
+            st.outcome = Some(Outcome::Horizon(who.join("; ")));
+            self.release_all(st);
+            return;
+        }
+        if let Some(f) = &st.on_decision {
+            if let Some(v) = f() {
+                st.monitor.push(v);
+            }
+        }
+        // canonical default
+        let prev = st.prev;
+        let prev_enabled = prev.is_some_and(|p| enabled.contains(&p));
+        let prev_yielded = prev.is_some_and(|p| st.threads[p].status == Status::Yielded);
+        let lrs = |cands: &[usize], st: &State| -> usize {
+            *cands.iter().min_by_key(|&&i| (st.threads[i].last_scheduled, i)).unwrap()
+        };
+        let default = if prev_enabled && !prev_yielded {
+            prev.unwrap()
+        } else if prev_enabled && prev_yielded {
+            let others: Vec<usize> = enabled.iter().copied().filter(|&i| Some(i) != prev).collect();
+            if others.is_empty() {
+                prev.unwrap()
+            } else {
+                lrs(&others, st)
+            }
+        } else {
+            lrs(&enabled, st)
+        };
+        let alt_cost = if prev_enabled { 1 } else { 0 };
+        let idx = st.trace.len();
+        let chosen = if idx < st.prefix.len() {
+            let want = st.prefix[idx];
+            if !enabled.contains(&want) {
+                st.outcome = Some(Outcome::Diverged(format!(
+                    "replay diverged at decision {idx}: thread T{want} is not enabled (enabled {enabled:?})"
+                )));
+                self.release_all(st);
+                return;
+            }
+            want
+        } else {
+            default
+        };
+        let at = enabled.iter().map(|&i| (i, st.threads[i].last_point)).collect();
+        st.trace.push(Decision { enabled, chosen, default, alt_cost, at });
+        self.decisions_total.fetch_add(1, Ordering::Relaxed);
+        st.step += 1;
+        st.threads[chosen].last_scheduled = st.step;
+        st.threads[chosen].status = Status::Running;
+        st.threads[chosen].pred = None;
+        st.prev = Some(chosen);
+        st.token = Some(chosen);
+        self.cv.notify_all();
+    }
+
+    fn release_all(&self, st: &mut State) {
+        st.controlled = false;
+        st.token = None;
+        for t in st.threads.iter_mut() {
+            if t.status != Status::Finished {
+                t.status = Status::Running;
+                t.pred = None;
+            }
+        }
+        self.cv.notify_all();
+    }
+
+    /// Park the calling thread with `status` and wait until it is scheduled again.
+    fn park(&self, tid: usize, status: Status, name: &'static str, args: (u64, u64), pred: Option<Pred>) {
+        let mut st = self.m.lock();
+        if !st.controlled {
+            return;
+        }
+        let had_token = st.token == Some(tid);
+        {
+            let t = &mut st.threads[tid];
+            t.status = status;
+            t.last_point = name;
+            t.last_args = args;
+            t.pred = pred;
+        }
+        if had_token {
+            self.schedule_next(&mut st);
+        } else {
+            // a background thread arriving at its first hook after control began
+            self.cv.notify_all();
+        }
+        while st.controlled && st.token != Some(tid) {
+            self.cv.wait(&mut st);
+        }
+        let t = &mut st.threads[tid];
+        t.status = Status::Running;
+        t.pred = None;
+    }
+
+    pub fn finish_thread(&self) {
+        let Some(tid) = Self::my_tid() else { return };
+        let mut st = self.m.lock();
+        st.threads[tid].status = Status::Finished;
+        st.threads[tid].last_point = "finished";
+        st.pins.retain(|p| p.0 != tid);
+        let had_token = st.token == Some(tid);
+        if st.controlled && had_token {
+            self.schedule_next(&mut st);
+        } else {
+            self.cv.notify_all();
+        }
+        MY_TID.with(|c| c.set(None));
+    }
+
+    /// Begin the controlled phase: wait until every registered thread other than the
+    /// application threads (which are parked at "start") is parked in a hook, then
+    /// make the first decision.
+    pub fn begin(&self, expected_threads: usize, timeout: Duration) -> Result<(), String> {
+        let deadline = Instant::now() + timeout;
+        let mut st = self.m.lock();
+        st.controlled = true;
+        self.cv.notify_all();
+        loop {
+            let ready = st.threads.len() >= expected_threads && st.threads.iter().all(|t| t.status != Status::Running);
+            if ready {
+                break;
+            }
+            if Instant::now() > deadline {
+                let who: Vec<String> =
+                    st.threads.iter().enumerate().map(|(i, t)| format!("T{i}({}) {:?} at {}", t.role, t.status, t.last_point)).collect();
+                st.controlled = false;
+                self.cv.notify_all();
+                return Err(format!("threads did not all park before the controlled phase ({} registered, {} expected): {}", st.threads.len(), expected_threads, who.join("; ")));
+            }
+            self.cv.wait_for(&mut st, Duration::from_millis(1));
+        }
+        self.schedule_next(&mut st);
+        Ok(())
+    }
+
+    /// Wait for the execution to end. Returns the outcome.
+    pub fn wait_done(&self, stall: Duration) -> Outcome {
+        let mut st = self.m.lock();
+        loop {
+            if let Some(o) = st.outcome.clone() {
+                return o;
+            }
+            if st.last_progress.elapsed() > stall {
+                let running = st.token.map(|t| format!("T{t}({}) last seen at {}", st.threads[t].role, st.threads[t].last_point)).unwrap_or_else(|| "nobody".into());
+                let o = Outcome::Stuck(format!("no scheduling progress for {:?}; token holder: {running}", stall));
+                st.outcome = Some(o.clone());
+                self.release_all(&mut st);
+                return o;
+            }
+            self.cv.wait_for(&mut st, Duration::from_millis(5));
+        }
+    }
+
+    pub fn stop(&self) {
+        self.stop_polling.store(true, Ordering::SeqCst);
+        let mut st = self.m.lock();
+        if st.controlled {
+            self.release_all(&mut st);
+        }
+    }
+
+    pub fn is_controlled(&self) -> bool {
+        self.m.lock().controlled
+    }
+}
+
+impl SchedHooks for Sched {
+    fn point(&self, name: &'static str, a: u64, b: u64) {
+        if let Some(tid) = Self::my_tid() {
+            self.park(tid, Status::AtPoint, name, (a, b), None);
+        }
+    }
+
+    fn wait_until(&self, name: &'static str, ready: &dyn Fn() -> bool) {
+        let Some(tid) = Self::my_tid() else { return };
+        loop {
+            if self.is_controlled() {
+                // SAFETY: see `enabled`; the pointer is removed in `park` before it returns.
+                let p: *const (dyn Fn() -> bool) = ready;
+                let p: *const (dyn Fn() -> bool + 'static) = unsafe { std::mem::transmute(p) };
+                self.park(tid, Status::Waiting, name, (0, 0), Some(Pred(p)));
+            }
+            if ready() || self.stop_polling.load(Ordering::Relaxed) {
+                return;
+            }
+            if !self.is_controlled() {
+                // free mode: poll, so that the thread never blocks in the OS for long and
+                // can be parked as soon as the controlled phase begins
+                std::thread::sleep(Duration::from_micros(50));
+            }
+        }
+    }
+
+    fn yield_now(&self, name: &'static str) -> bool {
+        if let Some(tid) = Self::my_tid() {
+            self.park(tid, Status::Yielded, name, (0, 0), None);
+        }
+        false
+    }
+
+    fn adopted(&self, role: &'static str) {
+        self.register(role, false);
+    }
+
+    fn retired(&self, _role: &'static str) {
+        self.finish_thread();
+    }
+
+    fn tick(&self, shutdown: &dyn Fn() -> bool) -> Tick {
+        if Self::my_tid().is_none() {
+            return Tick::Skip;
+        }
+        // wait (visibly) until a tick is granted or the store shuts down
+        let pred = || shutdown() || self.tick_granted.load(Ordering::SeqCst) > 0;
+        self.wait_until("tick", &pred);
+        if shutdown() {
+            return Tick::Skip;
+        }
+        let mut g = self.tick_granted.load(Ordering::SeqCst);
+        while g > 0 {
+            match self.tick_granted.compare_exchange(g, g - 1, Ordering::SeqCst, Ordering::SeqCst) {
+                Ok(_) => return Tick::Run,
+                Err(x) => g = x,
+            }
+        }
+        Tick::Skip
+    }
+
+    fn note(&self, name: &'static str, a: u64, b: u64) {
+        let Some(tid) = Self::my_tid() else { return };
+        let mut st = self.m.lock();
+        match name {
+            "rd_pin" => st.pins.push((tid, a, b)),
+            "rd_release" => {
+                if let Some(i) = st.pins.iter().position(|p| p.0 == tid && p.1 == a) {
+                    st.pins.remove(i);
+                }
+            }
+            _ => {}
+        }
+    }
+
+    fn device_write(&self, off: u64, len: usize) {
+        let tid = Self::my_tid();
+        let mut st = self.m.lock();
+        let first = off / 4096;
+        let last = (off + len as u64 - 1) / 4096;
+        let hits: Vec<(usize, u64, u64)> =
+            st.pins.iter().copied().filter(|(t, s, n)| Some(*t) != tid && first < s + n && *s <= last).collect();
+        for (t, s, n) in hits {
+            let role = st.threads.get(t).map(|x| x.role).unwrap_or("?");
+            st.monitor.push(format!(
+                "C08: device blocks {first}..={last} were overwritten while T{t}({role}) still held extent {s}+{n} for reading"
+            ));
+        }
+    }
+}
+
+/// Sum of deviation costs of the decisions before index `i`.
+pub fn deviations_before(trace: &[Decision], i: usize) -> u32 {
+    trace[..i].iter().map(|d| if d.chosen != d.default { d.alt_cost } else { 0 }).sum()
+}
+
+/// Alternatives reachable from `trace` (which was produced with `prefix_len` fixed
+/// choices) within the deviation bound: new prefixes to run.
+pub fn alternatives(trace: &[Decision], prefix_len: usize, bound: u32) -> Vec<Vec<usize>> {
+    let mut out = Vec::new();
+    for i in prefix_len..trace.len() {
+        let d = &trace[i];
+        if d.enabled.len() < 2 {
+            continue;
+        }
+        let before = deviations_before(trace, i);
+        for &alt in &d.enabled {
+            if alt == d.chosen {
+                continue;
+            }
+            let cost = before + if alt == d.default { 0 } else { d.alt_cost };
+            if cost > bound {
+                continue;
+            }
+            let mut p: Vec<usize> = trace[..i].iter().map(|x| x.chosen).collect();
+            p.push(alt);
+            out.push(p);
+        }
+    }
+    out
 }
